@@ -78,6 +78,19 @@ def close_wallet(w):
         pass
 
 
+def reset_service_cache():
+    """The library keeps one service cache database per data directory, shared by every wallet and Service object of
+    the process. Cases must not see what earlier cases (or earlier shrink attempts of the same case: same seeds, same
+    addresses) left there, otherwise a case is not a function of its fields. The file is removed before a case;
+    connections still open on the old file keep their unlinked copy."""
+    import glob
+    for path in glob.glob(os.path.join(env.data_dir(), 'database', 'bitcoinlib_cache.sqlite*')):
+        try:
+            os.remove(path)
+        except OSError:
+            pass
+
+
 class deterministic_gc(object):
     """WalletKey.__del__ closes the wallet's shared SQLAlchemy session. When the *cyclic* garbage collector happens to
     run in the middle of a query the library raises InvalidRequestError at a random point - a timing accident, not a
@@ -86,6 +99,7 @@ class deterministic_gc(object):
 
     def __enter__(self):
         import gc
+        reset_service_cache()
         self._was = gc.isenabled()
         gc.disable()
         return self
